@@ -42,8 +42,7 @@ Definition b_comment_to_doc : body := fun t => append_comment_to_doc (tk_text t)
 Definition b_comment_to_html : body := fun t => append_comment_to_html (tk_text t).
 
 (* ---------- Initial (rules.rs:101-114) ---------- *)
-Definition step_initial : body :=
-  arm_dispatch (mode_id Initial) heads_initial
+Definition bodies_initial : list body :=
   [ (* 0 :102 *) b_split;
     (* 1 :105 *) b_done;
     (* 2 :106 *) b_comment_to_doc;
@@ -51,12 +50,13 @@ Definition step_initial : body :=
        s <- get ;;
        (if negb (o_iframe_srcdoc (opts s)) then parse_error ;; do_set_quirks 0%N else ret tt) ;;
        ret (Reprocess BeforeHtml t) ].
+Definition step_initial : body :=
+  arm_dispatch (mode_id Initial) heads_initial bodies_initial.
 
 (* ---------- BeforeHtml (rules.rs:118-143) ---------- *)
 Definition before_html_anything_else : body :=
   fun t => create_root [] ;; ret (Reprocess BeforeHead t).
-Definition step_before_html : body :=
-  arm_dispatch (mode_id BeforeHtml) heads_before_html
+Definition bodies_before_html : list body :=
   [ (* 0 :125 *) b_comment_to_doc;
     (* 1 :127 *) b_split;
     (* 2 :131 *) b_done;
@@ -64,6 +64,8 @@ Definition step_before_html : body :=
     (* 4 :138 *) before_html_anything_else;
     (* 5 :139 *) b_unexpected;
     (* 6 :141 *) before_html_anything_else ].
+Definition step_before_html : body :=
+  arm_dispatch (mode_id BeforeHtml) heads_before_html bodies_before_html.
 
 (* ---------- BeforeHead (rules.rs:147-173) ---------- *)
 Definition before_head_anything_else : body :=
@@ -71,8 +73,7 @@ Definition before_head_anything_else : body :=
     h <- insert_phantom (nm "head") ;;
     modify (set_head_elem (Some h)) ;;
     ret (Reprocess InHead t).
-Definition step_before_head (in_body : body) : body :=
-  arm_dispatch (mode_id BeforeHead) heads_before_head
+Definition bodies_before_head (in_body : body) : list body :=
   [ (* 0 :153 *) b_split;
     (* 1 :156 *) b_done;
     (* 2 :157 *) b_append_comment;
@@ -84,6 +85,8 @@ Definition step_before_head (in_body : body) : body :=
     (* 5 :167 *) before_head_anything_else;
     (* 6 :169 *) b_unexpected;
     (* 7 :171 *) before_head_anything_else ].
+Definition step_before_head (in_body : body) : body :=
+  arm_dispatch (mode_id BeforeHead) heads_before_head (bodies_before_head in_body).
 
 (* ---------- InHead (rules.rs:177-314) ---------- *)
 Definition in_head_anything_else : body :=
@@ -98,6 +101,7 @@ Definition in_head_template_start : body :=
     modify (fun s => set_template_modes (vpush (template_modes s) InTemplate) s) ;;
     b <- should_attach_declarative_shadow tg ;;
     (if b then
+       probe 48 ;;
        s <- get ;;
        host0 <- unwrap (vlast (open_elems s)) 33 ;;
        _shadow_host <- (if is_fragment s && Nat.eqb (length (open_elems s)) 1
@@ -122,15 +126,17 @@ Definition in_head_template_end : body :=
       set_mode_m m ;;
       ret Done.
 
-Definition step_in_head_gen (in_body : body) : body :=
-  arm_dispatch (mode_id InHead) heads_in_head
+Definition bodies_in_head_gen (in_body : body) : list body :=
   [ (* 0 :184 *) b_split;
     (* 1 :187 *) b_append_text;
     (* 2 :188 *) b_append_comment;
     (* 3 :190 *) in_body;
     (* 4 :192 *) fun t =>
        _e <- insert_and_pop_element_for (tk_tag t) ;;
-       meta_like_result (tk_tag t);
+       s <- get ;;
+       (* deviation 7: the charset / http-equiv inspection is not restricted to <meta> *)
+       if dev_on s 7 || is_n (tname t) "meta" then meta_like_result (tk_tag t)
+       else ret DoneAckSelfClosing;
     (* 5 :222 *) fun t => parse_raw_data (tk_tag t) Rcdata;
     (* 6 :224 *) fun t =>
        s <- get ;;
@@ -151,12 +157,13 @@ Definition step_in_head_gen (in_body : body) : body :=
     (* 11 :297 *) in_head_template_end;
     (* 12 :310 *) b_unexpected;
     (* 13 :312 *) in_head_anything_else ].
+Definition step_in_head_gen (in_body : body) : body :=
+  arm_dispatch (mode_id InHead) heads_in_head (bodies_in_head_gen in_body).
 
 (* ---------- InHeadNoscript (rules.rs:318-352) ---------- *)
 Definition in_head_noscript_anything_else : body :=
   fun t => parse_error ;; _e <- pop ;; ret (Reprocess InHead t).
-Definition step_in_head_noscript (in_head in_body : body) : body :=
-  arm_dispatch (mode_id InHeadNoscript) heads_in_head_noscript
+Definition bodies_in_head_noscript (in_head in_body : body) : list body :=
   [ (* 0 :325 *) in_body;
     (* 1 :327 *) fun _ => _e <- pop ;; set_mode_m InHead ;; ret Done;
     (* 2 :333 *) b_split;
@@ -166,12 +173,13 @@ Definition step_in_head_noscript (in_head in_body : body) : body :=
     (* 6 :346 *) in_head_noscript_anything_else;
     (* 7 :348 *) b_unexpected;
     (* 8 :350 *) in_head_noscript_anything_else ].
+Definition step_in_head_noscript (in_head in_body : body) : body :=
+  arm_dispatch (mode_id InHeadNoscript) heads_in_head_noscript (bodies_in_head_noscript in_head in_body).
 
 (* ---------- AfterHead (rules.rs:356-410) ---------- *)
 Definition after_head_anything_else : body :=
   fun t => _e <- insert_phantom (nm "body") ;; ret (Reprocess InBody t).
-Definition step_after_head (in_head in_body : body) : body :=
-  arm_dispatch (mode_id AfterHead) heads_after_head
+Definition bodies_after_head (in_head in_body : body) : list body :=
   [ (* 0 :363 *) b_split;
     (* 1 :366 *) b_append_text;
     (* 2 :367 *) b_append_comment;
@@ -191,6 +199,8 @@ Definition step_after_head (in_head in_body : body) : body :=
     (* 8 :404 *) after_head_anything_else;
     (* 9 :406 *) b_unexpected;
     (* 10 :408 *) after_head_anything_else ].
+Definition step_after_head (in_head in_body : body) : body :=
+  arm_dispatch (mode_id AfterHead) heads_after_head (bodies_after_head in_head in_body).
 
 (* ---------- InBody (rules.rs:414-1003) ---------- *)
 Definition ib_block_start : body :=      (* :508, :519 *)
@@ -203,7 +213,7 @@ Fixpoint li_scan (s : st) (is_list : bool) (l : list handle) : option str :=
   | node :: r =>
     let name := ename_of s node in
     if (if is_list then in_set close_list name else in_set close_defn name) then Some (snd name)
-    else if extra_special name then None
+    else if is_special s name && negb (in_set extra_special_minus name) then None
     else li_scan s is_list r
   end.
 
@@ -255,8 +265,7 @@ Definition with_name (t : tok) (n : string) : tok :=
   let g := tk_tag t in
   KTag {| tg_kind := tg_kind g ; tg_name := nm n ; tg_self := tg_self g ; tg_attrs := tg_attrs g ; tg_dup := tg_dup g |}.
 
-Definition step_in_body_gen (in_head in_template self : body) : body :=
-  arm_dispatch (mode_id InBody) heads_in_body
+Definition bodies_in_body_gen (in_head in_template self : body) : list body :=
   [ (* 0 :415 *) b_unexpected;
     (* 1 :417 *) fun t =>
        reconstruct_active_formatting_elements ;;
@@ -378,7 +387,7 @@ Definition step_in_body_gen (in_head in_template self : body) : body :=
        (match option_in_stack with
         | Some option =>
           s <- get ;;
-          if negb (existsb (fun e => same_node e option) (open_elems s)) then emit (OpCloneOption option)
+          if negb (existsb (fun e => same_node e option) (open_elems s)) then probe 51 ;; emit (OpCloneOption option)
           else ret tt
         | None => ret tt
         end) ;;
@@ -556,6 +565,8 @@ Definition step_in_body_gen (in_head in_template self : body) : body :=
          _e <- insert_element_for (tk_tag t) ;;
          ret Done;
     (* 50 :999 any other end tag *) ib_any_end ].
+Definition step_in_body_gen (in_head in_template self : body) : body :=
+  arm_dispatch (mode_id InBody) heads_in_body (bodies_in_body_gen in_head in_template self).
 
 (* ---------- InTemplate (rules.rs:1403-1462) ---------- *)
 Definition switch_template_mode (m : imode) : body :=
@@ -563,8 +574,7 @@ Definition switch_template_mode (m : imode) : body :=
     modify (fun s => set_template_modes (vpush (vpop (template_modes s)) m) s) ;;
     ret (Reprocess m t).
 
-Definition step_in_template_gen (in_head in_body : body) : body :=
-  arm_dispatch (mode_id InTemplate) heads_in_template
+Definition bodies_in_template_gen (in_head in_body : body) : list body :=
   [ (* 0 :1404 *) in_body;
     (* 1 :1405 *) in_body;
     (* 2 :1407 *) in_head;
@@ -586,6 +596,8 @@ Definition step_in_template_gen (in_head in_body : body) : body :=
          ret (Reprocess m2 t);
     (* 8 :1455 *) switch_template_mode InBody;
     (* 9 :1461 *) b_unexpected ].
+Definition step_in_template_gen (in_head in_body : body) : body :=
+  arm_dispatch (mode_id InTemplate) heads_in_template (bodies_in_template_gen in_head in_body).
 
 (* ---------- tying the knot for in-body / in-head / in-template ---------- *)
 Definition no_callee : body := fun _ => out_of_fuel.
@@ -598,8 +610,7 @@ Definition step_in_body : body := step_in_body_gen step_in_head step_in_template
 Definition step_in_template : body := step_in_template_gen step_in_head step_in_body.
 
 (* ---------- Text (rules.rs:1007-1033) ---------- *)
-Definition step_text : body :=
-  arm_dispatch (mode_id Text) heads_text
+Definition bodies_text : list body :=
   [ (* 0 :1008 *) b_append_text;
     (* 1 :1010 Eof *) fun t =>
        parse_error ;;
@@ -622,6 +633,8 @@ Definition step_text : body :=
        set_mode_m om ;;
        if is_n (tname t) "script" then ret (PScript node) else ret Done;
     (* 3 :1032 *) fun _ => panic 42 ].
+Definition step_text : body :=
+  arm_dispatch (mode_id Text) heads_text bodies_text.
 
 (* ---------- InTable (rules.rs:1037-1133) and its helpers (mod.rs:1236-1262) ---------- *)
 Definition foster_parent_in_body (t : tok) : M presult :=
@@ -631,7 +644,10 @@ Definition foster_parent_in_body (t : tok) : M presult :=
   ret r.
 
 Definition process_chars_in_table (t : tok) : M presult :=
-  b <- current_node_in (in_set table_outer_chars) ;;
+  s0 <- get ;;
+  (* deviation 9 *)
+  b <- current_node_in (fun n => in_set table_outer_chars n ||
+                                 (negb (dev_on s0 9) && ename_eqb n (ns_html, nm "template"))) ;;
   if b then
     s <- get ;;
     assert (match pending_table_text s with [] => true | _ => false end) 27 ;;
@@ -641,8 +657,7 @@ Definition process_chars_in_table (t : tok) : M presult :=
     parse_error ;;
     foster_parent_in_body t.
 
-Definition step_in_table : body :=
-  arm_dispatch (mode_id InTable) heads_in_table
+Definition bodies_in_table : list body :=
   [ (* 0 :1038 *) process_chars_in_table;
     (* 1 :1040 *) b_append_comment;
     (* 2 :1042 <caption> *) fun t =>
@@ -699,6 +714,8 @@ Definition step_in_table : body :=
        ret Done;
     (* 13 :1127 Eof *) step_in_body;
     (* 14 :1129 *) fun t => parse_error ;; foster_parent_in_body t ].
+Definition step_in_table : body :=
+  arm_dispatch (mode_id InTable) heads_in_table bodies_in_table.
 
 (* ---------- InTableText (rules.rs:1137-1169) ---------- *)
 Definition pending_contains_nonspace (p : list (split * str)) : bool :=
@@ -708,8 +725,7 @@ Definition pending_contains_nonspace (p : list (split * str)) : bool :=
                     | NotSplit => any_not_whitespace (snd x)
                     end) p.
 
-Definition step_in_table_text : body :=
-  arm_dispatch (mode_id InTableText) heads_in_table_text
+Definition bodies_in_table_text : list body :=
   [ (* 0 :1138 *) b_unexpected;
     (* 1 :1140 *) fun t =>
        modify (fun s => set_pending_table_text (vpush (pending_table_text s) (tk_split t, tk_text t)) s) ;;
@@ -719,18 +735,20 @@ Definition step_in_table_text : body :=
        let pending := pending_table_text s in
        modify (set_pending_table_text []) ;;
        (if pending_contains_nonspace pending then
+          probe 52 ;;
           parse_error ;;
           mapM_ (fun x => r <- foster_parent_in_body (KChars (fst x) (snd x)) ;;
                           match r with Done => ret tt | _ => panic 43 end) pending
-        else mapM_ (fun x => _r <- append_text (snd x) ;; ret tt) pending) ;;
+        else probe 53 ;; mapM_ (fun x => _r <- append_text (snd x) ;; ret tt) pending) ;;
        s <- get ;;
        om <- unwrap (orig_mode s) 41 ;;
        modify (set_orig_mode None) ;;
        ret (Reprocess om t) ].
+Definition step_in_table_text : body :=
+  arm_dispatch (mode_id InTableText) heads_in_table_text bodies_in_table_text.
 
 (* ---------- InCaption (rules.rs:1173-1205) ---------- *)
-Definition step_in_caption : body :=
-  arm_dispatch (mode_id InCaption) heads_in_caption
+Definition bodies_in_caption : list body :=
   [ (* 0 :1174 *) fun t =>
        s <- get ;;
        if in_scope_named s table_scope (nm "caption") then
@@ -743,10 +761,11 @@ Definition step_in_caption : body :=
        else unexpected;
     (* 1 :1199 *) b_unexpected;
     (* 2 :1204 *) step_in_body ].
+Definition step_in_caption : body :=
+  arm_dispatch (mode_id InCaption) heads_in_caption bodies_in_caption.
 
 (* ---------- InColumnGroup (rules.rs:1209-1249) ---------- *)
-Definition step_in_column_group : body :=
-  arm_dispatch (mode_id InColumnGroup) heads_in_column_group
+Definition bodies_in_column_group : list body :=
   [ (* 0 :1210 *) b_split;
     (* 1 :1213 *) b_append_text;
     (* 2 :1214 *) b_append_comment;
@@ -763,10 +782,11 @@ Definition step_in_column_group : body :=
        b <- current_node_named (nm "colgroup") ;;
        if b then _e <- pop ;; ret (Reprocess InTable t)
        else unexpected ].
+Definition step_in_column_group : body :=
+  arm_dispatch (mode_id InColumnGroup) heads_in_column_group bodies_in_column_group.
 
 (* ---------- InTableBody (rules.rs:1253-1297) ---------- *)
-Definition step_in_table_body : body :=
-  arm_dispatch (mode_id InTableBody) heads_in_table_body
+Definition bodies_in_table_body : list body :=
   [ (* 0 :1254 <tr> *) fun t =>
        pop_until_current table_body_context ;;
        _e <- insert_element_for (tk_tag t) ;;
@@ -785,13 +805,17 @@ Definition step_in_table_body : body :=
        else unexpected;
     (* 3 :1279 *) fun t =>
        s <- get ;;
-       if in_scope s table_scope (fun e => in_set table_outer_body (ename_of s e)) then
+       (* deviation 11 *)
+       if in_scope s table_scope (fun e => in_set (if dev_on s 11 then table_outer_body
+                                                   else html_names ["tbody"; "thead"; "tfoot"]%string) (ename_of s e)) then
          pop_until_current table_body_context ;;
          _e <- pop ;;
          ret (Reprocess InTable t)
        else unexpected;
     (* 4 :1292 *) b_unexpected;
     (* 5 :1296 *) step_in_table ].
+Definition step_in_table_body : body :=
+  arm_dispatch (mode_id InTableBody) heads_in_table_body bodies_in_table_body.
 
 (* ---------- InRow (rules.rs:1301-1357) ---------- *)
 Definition close_row : M unit :=
@@ -800,8 +824,7 @@ Definition close_row : M unit :=
   s <- get ;;
   assert (named s node "tr") 8.
 
-Definition step_in_row : body :=
-  arm_dispatch (mode_id InRow) heads_in_row
+Definition bodies_in_row : list body :=
   [ (* 0 :1302 <th> <td> *) fun t =>
        pop_until_current table_row_context ;;
        _e <- insert_element_for (tk_tag t) ;;
@@ -824,10 +847,11 @@ Definition step_in_row : body :=
        else unexpected;
     (* 4 :1352 *) b_unexpected;
     (* 5 :1356 *) step_in_table ].
+Definition step_in_row : body :=
+  arm_dispatch (mode_id InRow) heads_in_row bodies_in_row.
 
 (* ---------- InCell (rules.rs:1361-1399) ---------- *)
-Definition step_in_cell : body :=
-  arm_dispatch (mode_id InCell) heads_in_cell
+Definition bodies_in_cell : list body :=
   [ (* 0 :1362 </td> </th> *) fun t =>
        s <- get ;;
        if in_scope_named s table_scope (tname t) then
@@ -847,10 +871,11 @@ Definition step_in_cell : body :=
        if in_scope_named s table_scope (tname t) then close_the_cell ;; ret (Reprocess InRow t)
        else unexpected;
     (* 4 :1398 *) step_in_body ].
+Definition step_in_cell : body :=
+  arm_dispatch (mode_id InCell) heads_in_cell bodies_in_cell.
 
 (* ---------- AfterBody (rules.rs:1466-1492) ---------- *)
-Definition step_after_body : body :=
-  arm_dispatch (mode_id AfterBody) heads_after_body
+Definition bodies_after_body : list body :=
   [ (* 0 :1467 *) b_split;
     (* 1 :1470 *) step_in_body;
     (* 2 :1473 *) b_comment_to_html;
@@ -861,10 +886,11 @@ Definition step_after_body : body :=
        ret Done;
     (* 5 :1486 *) b_done;
     (* 6 :1488 *) fun t => parse_error ;; ret (Reprocess InBody t) ].
+Definition step_after_body : body :=
+  arm_dispatch (mode_id AfterBody) heads_after_body bodies_after_body.
 
 (* ---------- InFrameset (rules.rs:1496-1538) ---------- *)
-Definition step_in_frameset : body :=
-  arm_dispatch (mode_id InFrameset) heads_in_frameset
+Definition bodies_in_frameset : list body :=
   [ (* 0 :1497 *) b_split;
     (* 1 :1500 *) b_append_text;
     (* 2 :1501 *) b_append_comment;
@@ -888,10 +914,11 @@ Definition step_in_frameset : body :=
        when (negb (Nat.eqb (length (open_elems s)) 1)) parse_error ;;
        ret Done;
     (* 9 :1537 *) b_unexpected ].
+Definition step_in_frameset : body :=
+  arm_dispatch (mode_id InFrameset) heads_in_frameset bodies_in_frameset.
 
 (* ---------- AfterFrameset (rules.rs:1542-1561) ---------- *)
-Definition step_after_frameset : body :=
-  arm_dispatch (mode_id AfterFrameset) heads_after_frameset
+Definition bodies_after_frameset : list body :=
   [ (* 0 :1543 *) b_split;
     (* 1 :1546 *) b_append_text;
     (* 2 :1547 *) b_append_comment;
@@ -900,20 +927,22 @@ Definition step_after_frameset : body :=
     (* 5 :1556 *) step_in_head;
     (* 6 :1558 *) b_done;
     (* 7 :1560 *) b_unexpected ].
+Definition step_after_frameset : body :=
+  arm_dispatch (mode_id AfterFrameset) heads_after_frameset bodies_after_frameset.
 
 (* ---------- AfterAfterBody (rules.rs:1565-1582) ---------- *)
-Definition step_after_after_body : body :=
-  arm_dispatch (mode_id AfterAfterBody) heads_after_after_body
+Definition bodies_after_after_body : list body :=
   [ (* 0 :1566 *) b_split;
     (* 1 :1569 *) step_in_body;
     (* 2 :1572 *) b_comment_to_doc;
     (* 3 :1574 *) step_in_body;
     (* 4 :1576 *) b_done;
     (* 5 :1578 *) fun t => parse_error ;; ret (Reprocess InBody t) ].
+Definition step_after_after_body : body :=
+  arm_dispatch (mode_id AfterAfterBody) heads_after_after_body bodies_after_after_body.
 
 (* ---------- AfterAfterFrameset (rules.rs:1586-1602) ---------- *)
-Definition step_after_after_frameset : body :=
-  arm_dispatch (mode_id AfterAfterFrameset) heads_after_after_frameset
+Definition bodies_after_after_frameset : list body :=
   [ (* 0 :1587 *) b_split;
     (* 1 :1590 *) step_in_body;
     (* 2 :1593 *) b_comment_to_doc;
@@ -921,6 +950,8 @@ Definition step_after_after_frameset : body :=
     (* 4 :1597 *) b_done;
     (* 5 :1599 *) step_in_head;
     (* 6 :1601 *) b_unexpected ].
+Definition step_after_after_frameset : body :=
+  arm_dispatch (mode_id AfterAfterFrameset) heads_after_after_frameset bodies_after_after_frameset.
 
 (* ---------- fn step ---------- *)
 Definition step (m : imode) : body :=
@@ -960,23 +991,23 @@ Definition unexpected_start_tag_in_foreign_content : body :=
 (* the loop of the end-tag arm; structurally recursive on stack_idx *)
 Fixpoint foreign_end_loop (stack_idx : nat) (first : bool) (t : tok) : M presult :=
   match stack_idx with
-  | 0 => ret Done
+  | 0 => probe 42 ;; ret Done
   | S i =>
     s <- get ;;
     node <- unwrap (nth_error (open_elems s) stack_idx) 31 ;;
     let name := ename_of s node in
     let html := str_eqb (fst name) ns_html in
     let eq := eq_ignore_ascii_case (snd name) (tname t) in
-    if negb first && html then step (mode s) t
+    if negb first && html then probe 40 ;; step (mode s) t
     else if eq then
+      probe 41 ;;
       modify (fun s => set_open_elems (vtruncate stack_idx (open_elems s)) s) ;; ret Done
     else
       (if first then parse_error else ret tt) ;;
       foreign_end_loop i false t
   end.
 
-Definition step_foreign : body :=
-  arm_dispatch foreign_id heads_foreign
+Definition bodies_foreign : list body :=
   [ (* 0 :1610 *) fun _ => parse_error ;; append_text [0xFFFD%N];
     (* 1 :1615 *) fun t =>
        when (any_not_whitespace (tk_text t)) set_frameset_not_ok ;;
@@ -996,3 +1027,5 @@ Definition step_foreign : body :=
        | _ :: _ => foreign_end_loop (length (open_elems s) - 1) true t
        end;
     (* 7 :1687 *) fun _ => panic 44 ].
+Definition step_foreign : body :=
+  arm_dispatch foreign_id heads_foreign bodies_foreign.
